@@ -15,6 +15,7 @@ func init() {
 			"R05.2 order independence, necessary part: records are sorted before siblings are arranged, every base handed out is reserved, parameter-free patterns go to the static map which Lookup consults first; R05.3 the mux only stores HandlerFunc values, so its type assertion cannot fail; " +
 			"R05.4 a single-segment parameter ends only at '/' or the termination byte; R05.5 backtracking tries, for every recorded candidate node, the single parameter and then the wildcard, and the candidate stack is never truncated during the literal walk; parameter names are filled from the matched node. " +
 			"R05.3 also: the serve mux looks up r.Method and the decoded r.URL.Path. " +
+			"R05.5 also: the any-parameter flag is asked at every position, a set flag registers the position, the backtracking stack starts empty; R05.2 also: every child's CHECK slot is claimed in one loop before any subtree is built, and the record a parameter case strips belongs to that child's own group. " +
 			"NOT decided: soundness/completeness of matching and literal-over-parameter preference as such (value-level).",
 		Assumptions: []string{"trie-shape invariants established by doubleArray.build as stated in the invariant table"},
 		Run:         runC05,
